@@ -95,7 +95,10 @@ class BaseResponse:
         ''' Returns a copy of self. '''
         cls = cls or BaseResponse
         assert issubclass(cls, BaseResponse)
-        copy = cls(status = self.status, headers = self.headers.copy().dict)
+        # read the headers the way status and cookies are read (self._headers): for the thread-safe Response,
+        # self.headers may still be bound to what this instance held when it was last initialised in this thread
+        headers = {k: (v[:] if isinstance(v, list) else v) for k, v in self._headers.items()}
+        copy = cls(status = self.status, headers = headers)
         if self._cookies:
             copy._cookies = SimpleCookie()
             copy._cookies.load(self._cookies.output(header=''))
